@@ -220,6 +220,19 @@ def analyse(plan: dict[str, Any], result: dict[str, Any]) -> Report:
                 asg[r] = recs[r][0].get('assignment') or {}
         if k > 0 and plan['world'] > 1 and len(asg) == plan['world']:
             _restore_traffic(rep, plan, ref, recs, asg)
+        if k > 0 and all(ref.snap[n] is not None for n in infos) and infos:
+            # second-order data recomputed at load time comes from the
+            # restored factors and the damping in effect at the restored
+            # step: C01 is evaluated on the steps that use it
+            d_load = ref.snap[next(iter(infos))][2]
+            for r in recs:
+                rr = next((x for x in recs[r] if x.get('op') == 'restore'),
+                          None)
+                if rr and rr.get('compute_inverses') and rr.get(
+                        'restored_factors') and all(
+                            f.get('A') is not None and f.get('G') is not None
+                            for f in rr['restored_factors'].values()):
+                    impl_snap[r] = (rr['restored_factors'], d_load)
         complete = True
         for idx, op in incs_plan[k]['ops']:
             by_rank = {}
